@@ -40,3 +40,9 @@ VARIANTS += [
     M('C14', 'refactor-category-table-memo-complete-key', [E(RX, "class Fragment(namedtuple('Fragment', 're group')):", "category_sets = {}\ndef categories_for(extra_letters=None, full_escape=False, dialect=None):\n    key = (extra_letters or '', bool(full_escape), dialect)\n    cats = category_sets.get(key)\n    if cats is None:\n        cats = Categories(extra_letters, full_escape=full_escape,\n                          dialect=dialect)\n        category_sets[key] = cats\n    return cats\n\n\nclass Fragment(namedtuple('Fragment', 're group')):")],
       kind='refactor'),
 ]
+
+VARIANTS += [
+    M('C14', 'seed-dropped-when-sampling-flag-is-off', E(RX, "        self.seed = seed\n", "        self.seed = seed if self.size.use_sampling else None\n"), rule='C14-SEEDFWD', key='self.seed'),
+    M('C14', 'first-sample-seeded-with-a-constant', E(RX, "        prng_state = PRNGState(seed)   # the first sample is drawn here", "        prng_state = PRNGState(0)   # the first sample is drawn here"), rule='C14-SEEDFWD', key='PRNGState'),
+    M('C14', 'refactor-seed-stored-before-first-sample', [E(RX, "        self.seed = seed\n", ""), E(RX, "        prng_state = PRNGState(seed)   # the first sample is drawn here", "        self.seed = seed\n        prng_state = PRNGState(self.seed)   # the first sample is drawn here")], kind='refactor'),
+]
